@@ -154,7 +154,9 @@ class Spec:
         doc = {}
         doc["subnets"] = list(self.subnets[1:])
         doc["topology"] = [list(r) for r in self.topology]
-        doc["sensitive_hosts"] = {str(a): v for a, v in self.sensitive.items()}
+        spell = style.get("addr_spelling", "(%d, %d)")
+        doc["sensitive_hosts"] = {spell % a: v
+                                  for a, v in self.sensitive.items()}
         doc["os"] = list(self.os)
         doc["services"] = list(self.services)
         doc["processes"] = list(self.processes)
@@ -176,7 +178,7 @@ class Spec:
             c = {"os": h["os"], "services": list(h["services"]),
                  "processes": list(h["processes"])}
             if h["firewall"] or style.get("empty_host_fw"):
-                c["firewall"] = {str(s): list(v)
+                c["firewall"] = {spell % s: list(v)
                                  for s, v in h["firewall"].items()}
             explicit = style.get("explicit_values", True)
             if a in self.sensitive:
